@@ -4,6 +4,7 @@ import importlib
 _MODULES = [
     "c01_chunking",
     "c02_pipeline",
+    "c05_wsgi_output",
     "c07_hostile",
     "c09_body_stream",
     "c10_limits",
